@@ -9,8 +9,8 @@ from gen.deccommon import run_dec
 
 
 class SPEC:
-    rule = ("engine dec; alphabet of 20 symbols = {template A, template B, bad template (field list fails after the id was read), "
-            "template cut right after its id, data} x 2 observation domains x 2 template ids; A and B have different field lists of the "
+    rule = ("engine dec; alphabet of 28 symbols = {template A, template B, bad template (unknown element in strict mode), template whose field "
+            "count exceeds the specifiers present, template cut inside an enterprise number, template cut right after its id, data} x 2 observation domains x 2 template ids; A and B have different field lists of the "
             "same record length so decoding with the wrong one shows in the values. Quick: ALL histories of length <= 3 plus all "
             "length-4 histories ending in a data symbol, plus random histories of length 5..40; thorough: all of length <= 4, "
             "length-5 ending in data, random up to 200. After each history the stored template keys are compared. "
@@ -40,6 +40,11 @@ def symbols():
             sym[("X", d, i)] = W.message(d, 2, W.template_body(i, [u16, unknown]))
             # cut: the body ends right after the template id (finding D13)
             sym[("T", d, i)] = W.message(d, 2, W.u16(i))
+            # short: the field count announces more specifiers than the body holds
+            sym[("Y", d, i)] = W.message(d, 2, W.template_body(i, A, count=3))
+            # cut inside the enterprise number of the second specifier
+            ent = G.IE(56506, 101, 13, 65535, "sourcePodName")
+            sym[("Z", d, i)] = W.message(d, 2, W.template_body(i, [u16, ent])[:-2])
             sym[("D", d, i)] = W.message(d, i, rec + rec)
     return sym
 
@@ -95,5 +100,5 @@ def run(ctx):
     rng = random.Random(ctx.seed * 1000003 + 4)
     cases = gen_cases(rng, ctx.tier)
     res = run_dec(ctx, cases, "C04", signature, use_spec=True)
-    res["notes"].append("histories enumerated exhaustively up to the stated length over the 20-symbol alphabet")
+    res["notes"].append("histories enumerated exhaustively up to the stated length over the 28-symbol alphabet")
     return res
